@@ -38,16 +38,19 @@ def list_tag(ctx):
     r = drop_lv(inline_option_maps(facts, interp(facts, body).ret))
     ok = False
     msg = 'delete_index builds %s' % fmt(r, 4)
-    if r[0] == 'agg' and r[2] == 'Delete':
-        f = dict(r[3])
-        d = subst(f.get('dot'), {})
+    # every Delete op the function can return (through `map`, `?` or a match; the other alternatives are None)
+    dels = [x for x in subterms(r) if x[0] == 'agg' and x[2] == 'Delete' and x[1].endswith('list::Op')]
+    if dels:
+        ok = True
+    for x in dels:
+        f = dict(x[3])
         # upvars of the closure were substituted by inline_option_maps
         dd = strip_conv(f['dot'])
-        ok = _is_fresh_dot(facts, f['dot'])
         idt = versionless(f['id'])
         src_ok = any(param_path(st) == (1, ('seq',)) for st in subterms(idt))
-        ok = ok and src_ok
-        msg = 'Delete{id: %s, dot: %s}: expected an existing key of seq and self.clock.inc(<the acting actor>)' % (fmt(idt, 3), fmt(dd, 4))
+        if not (_is_fresh_dot(facts, f['dot']) and src_ok):
+            ok = False
+            msg = 'Delete{id: %s, dot: %s}: expected an existing key of seq and self.clock.inc(<the acting actor>)' % (fmt(idt, 3), fmt(dd, 4))
     ctx.check(ok, 'delete_index', body, 'dot = self.clock.inc(actor), id = existing key', msg)
     body = facts.body('crdts::list::Op::dot')
     if body is None:
@@ -585,7 +588,7 @@ def id_marker(ctx):
            '(with <= the result equals or precedes a bound), and a one-node identifier is compared at the first path node, so its '
            'position must be derived from the first node of the bound',
     'C12': 'List::append / insert_index allocate identifiers with the one-bound and two-bound forms',
-}, floor=2)
+}, floor=3)
 def id_between(ctx):
     """Identifier::between: (a) at an equal-position node the marker is appended in place only when it is strictly
     between the two sibling markers; (b) with a single bound the new position is computed from the first node of that bound."""
@@ -642,6 +645,44 @@ def id_between(ctx):
             errs.append('the sibling shortcut is unreachable even for l_m < marker < h_m')
         ctx.check(not errs, 'sibling-guard', body, 'shortcut only under l_m < marker < h_m', errs[0] if errs else '',
                   details={'(ord(l_m,marker), ord(marker,h_m)) -> shortcut reachable': {str(k): v for k, v in res.items()}}, props=['C14'])
+    # (c) fork inside the walk: the fresh position is computed from the current node of BOTH paths (a side may be
+    # passed as None only where that path is exhausted)
+    def node_side(t):
+        if is_call(t, 'next'):
+            t = ('field', t, 'Some.0')
+        src = as_item(t)
+        if src is None:
+            return None
+        pp = param_path(iter_source(src)[0])
+        return pp[0] if pp else None
+
+    def have(t):
+        if t[0] == 'discr':
+            sd = node_side(('field', t[1], 'Some.0'))
+            if sd in (1, 2):
+                return ('map', 'n%d' % sd, {True: 1, False: 0})
+        return None
+    forks = []
+    for bb, c in sorted(it.calls.items()):
+        if call_name(c.term) == 'push' and len(c.args) == 2:
+            v = drop_lv(c.args[1].val)
+            if v[0] == 'tuple' and len(v[1]) == 2 and versionless(v[1][1]) == ('param', 3) and is_call(drop_lv(v[1][0]), 'rational_between'):
+                rb = drop_lv(v[1][0])
+                forks.append((bb, [drop_lv(inline_option_maps(facts, a)) for a in rb[2]]))
+    if not forks:
+        ctx.shape('fork', body, 'no fork step (push of (rational_between(low node, high node), marker)) inside the walk over the two paths')
+    else:
+        errs = []
+        for bb, args in forks:
+            for sd, arg in ((1, args[0]), (2, args[1])):
+                if any(node_side(st) == sd for st in subterms(versionless(arg))):
+                    continue
+                rcn = Reach(facts, body, Evaluator(facts, bool_atom=have, assumption={'n%d' % sd: True}))
+                if bb in rcn.reachable:
+                    errs.append('line %d: the fork position ignores the current node of the %s path although that path still has a node there '
+                                '(the result is not between the bounds)' % (block_line(it, bb), 'low' if sd == 1 else 'high'))
+        ctx.check(not errs, 'fork', body, 'fork position taken between the current nodes of both paths', errs[0] if errs else '',
+                  line=block_line(it, forks[0][0]), props=['C14'])
     # (b) one-bound position from the first node
     one = []
     for bb, c in it.calls.items():
@@ -676,7 +717,15 @@ def list_apply(ctx):
     it = interp(facts, body)
     for v, how, want in (('Insert', {'entry', 'insert', 'or_insert', 'or_insert_with'}, 'Insert.id'), ('Delete', {'remove', 'remove_entry'}, 'Delete.id')):
         found = []
-        rc, _ = _gate_eval(ctx, body, 'crdts::list::Op', v, LT, found)
+
+        def present(t, want=want):
+            # `seq.contains_key(&op.id)` / `seq.get(&op.id).is_some()`: an Insert only has to add an absent identifier
+            pr = _presence(t)
+            if pr and param_path(versionless(pr[0])) == (1, ('seq',)) and param_path(versionless(pr[1])) \
+                    and param_path(versionless(pr[1]))[1][-1:] == (want,):
+                return 'present' if pr[2] else ('not', 'present')
+            return None
+        rc, _ = _gate_eval(ctx, body, 'crdts::list::Op', v, LT, found, extra_atom=present, extra_asm={'present': v == 'Delete'})
         good, other = [], []
         for bb, c in it.calls.items():
             if bb not in rc.reachable:
